@@ -388,3 +388,17 @@ def check(P: Project, R: Report) -> None:
         wp = w.positional_params()[0]
         cs = [x for x in walk_local(w.node) if isinstance(x, ast.Call) and call_name(x) == "StdioClient"]
         R.ob("R3", f"{wname} hands its parameters to StdioClient unchanged", len(cs) == 1 and len(cs[0].args) == 1 and ast.unparse(cs[0].args[0]) == wp, w.where, "")
+
+    # ------------------------------------------------------------------ R9: what the configuration names is what the parameter object holds
+    R.rule("R9", "the parameter object the entry points hand to the launcher holds the configured strings as they are: StdioParameters' model configuration (its own and what it inherits) sets nothing that rewrites or refuses values — only Pydantic reads such settings, and they apply to every string in the model: each argument, each environment key and value")
+    from ..models import ModelTable, config_findings
+
+    T20 = ModelTable(P)
+    mine = [m for m in T20.models.values() if m.name == "StdioParameters"]
+    R.need(mine, "anchor: StdioParameters is not a model class any more")
+    cf20 = [x for x in config_findings(T20) if x[0].name == "StdioParameters"]
+    for m_, k_, v_, effect_ in cf20:
+        R.ob("R9", "StdioParameters: the configuration leaves command, args and env as configured", False, f"{m_.ci.module.rel}:{m_.ci.node.lineno}",
+             f"model_config[{k_!r}] = {v_!r} {effect_}: an argument, an environment value or an environment key with such characters reaches the child changed — the server is launched with something other than what the configuration names")
+    if not cf20:
+        R.ob("R9", "StdioParameters: the configuration leaves command, args and env as configured", True, f"{mine[0].ci.module.rel}:{mine[0].ci.node.lineno}", "", sample=f"R9 StdioParameters.model_config keys: {sorted(mine[0].config)}")
